@@ -305,7 +305,9 @@ def _chunk(args):
             if want == "C08":
                 out.append(observe(v, sid, nodes, mode, names, conf, want))
                 if k_ % 3 == 0 or not quick:
-                    out.append(observe(v, sid, nodes, mode, names, conf, want, xec=True))
+                    # ... and with content in the segments (components, repetitions), in the message's own delimiters
+                    lines = [msh(v, sid)] + [rich_line(n, v, rnd) for n in names[1:]]
+                    out.append(observe(v, sid, nodes, mode, names, conf, want, lines, xec=True))
             else:
                 # C03: the plain instance with rich lines, and perturbed ones
                 lines = [msh(v, sid)] + [rich_line(n, v, rnd) for n in names[1:]]
